@@ -106,7 +106,11 @@ class HmPool:
                 d = Builder().store_dict(cell).end_cell().begin_parse().load_dict(w)
             else:
                 d = cell.begin_parse().load_hashmap(w)
-            return {'pairs': [[int(k), int(v.bits.to01() or '0', 2), len(v.bits)] for k, v in d.items()]}
+            res = {'pairs': [[int(k), int(v.bits.to01() or '0', 2), len(v.bits)] for k, v in d.items()]}
+            for v in d.values():          # the caller reads the value slices to the end and empties the dictionary it was given
+                v.load_bits(len(v.bits))
+            d.clear()
+            return res
         raise ValueError(op)
 
 
